@@ -125,7 +125,7 @@ def main():
         }],
         "checks": [],
         "not_applicable": [],
-        "notes": NOTES_PLACEHOLDER + "All claimed checks are level 'exploration' (seeded sampling of schedules and fault sequences; one VERIF_SEED decides workload, schedule and fault plan; violations come with a minimised replay file re-run twice in fresh interpreters, or with a block-prefix replay when the defect depends on state left by earlier calls). 45 'fix:' commits repaired genuine defects in /repo (44 for claimed properties; the last 23 after three rounds of independent sub-agents hunting for defects widened the input domains); they are listed in known_findings.json as 'fixed:' entries whose reproducers run first in every check. One defect is recorded, not repaired: open entry C04-unscaled-tableau-tolerance (the C04 check prints its KNOWN-FINDING line and exits 0). Self-tests: ./simcheck selftest determinism | sensitivity ({n_own} own mutants + {n_seeded} independent seeded changes under seeded/, {n_blind} of them a documented blind spot) | findings. DESIGN.md section 10 records what was built, the defects, the seeded changes and the mutation sweeps.",
+        "notes": NOTES_PLACEHOLDER + "All claimed checks are level 'exploration' (seeded sampling of schedules and fault sequences; one VERIF_SEED decides workload, schedule and fault plan; violations come with a minimised replay file re-run twice in fresh interpreters, or with a block-prefix replay when the defect depends on state left by earlier calls). 46 'fix:' commits repaired genuine defects in /repo (45 for claimed properties; the last 24 after three rounds of independent sub-agents hunting for defects widened the input domains); they are listed in known_findings.json as 'fixed:' entries whose reproducers run first in every check. One defect is recorded, not repaired: open entry C04-unscaled-tableau-tolerance (the C04 check prints its KNOWN-FINDING line and exits 0). Self-tests: ./simcheck selftest determinism | sensitivity ({n_own} own mutants + {n_seeded} independent seeded changes under seeded/, {n_blind} of them a documented blind spot) | findings. DESIGN.md section 10 records what was built, the defects, the seeded changes and the mutation sweeps.",
     }
     for k, v in (("{n_own}", n_own), ("{n_seeded}", n_seeded), ("{n_blind}", n_blind)):
         man["notes"] = man["notes"].replace(k, str(v))
